@@ -85,7 +85,9 @@ func (l *patchLoader) LoadFileList(patchList string) (err error) {
 			return fmt.Errorf("load patch %q: %w", path, err)
 		}
 	}
-	return nil
+	// A list that cannot be read (a directory, a line that is too long)
+	// must not pass for an empty list.
+	return scanner.Err()
 }
 
 // parseAndCompile parses the given patch contents,
